@@ -6,6 +6,11 @@ use std::time::Duration;
 use super::*;
 verus! {
 
+#[verifier::external_type_specification]
+#[verifier::external_body]
+pub struct ExUpdateOpaque(rustybgp_packet::bgp::Update);
+
+
 // (vstd already specifies core::time::Duration)
 
 pub assume_specification<T>[ std::mem::replace ](dest: &mut T, src: T) -> (r: T)
